@@ -197,8 +197,37 @@ def stress_run(arg):
         th_ = threading.Thread(target=drain)
         th_.start()
     xargs = (["--ancestor", opts["ancestor"]] if opts.get("ancestor") else []) + (["--nullargv"] if opts.get("nullargv") else []) + (["--canary"] if opts.get("canary") else []) + (["--stack", str(opts["stack"])] if opts.get("stack") else [])
-    r = subprocess.run([exe, "--mount", "%s:%s" % (conf, SYSCONF), "--threads", str(nt), "--calls", str(ncalls), "--seed", str(seed), "--out", os.path.join(work, "issued")] + xargs,
-                       env=env, capture_output=True, timeout=1800, cwd=work)
+    try:
+        r = subprocess.run([exe, "--mount", "%s:%s" % (conf, SYSCONF), "--threads", str(nt), "--calls", str(ncalls), "--seed", str(seed), "--out", os.path.join(work, "issued")] + xargs,
+                           env=env, capture_output=True, timeout=opts.get("timeout", 1800), cwd=work)
+    except subprocess.TimeoutExpired:
+        # are the threads all parked in a lock wait (one of them left the library with its mutex held), or is the run just slow?
+        from vlib.drive import kill_stragglers
+        states = []
+        for d in os.listdir("/proc"):
+            if not d.isdigit():
+                continue
+            try:
+                with open("/proc/%s/cmdline" % d, "rb") as f:
+                    cl = f.read()
+                if work.encode() not in cl or b"vthreads" not in cl:
+                    continue
+                for t in os.listdir("/proc/%s/task" % d):
+                    with open("/proc/%s/task/%s/syscall" % (d, t)) as f:
+                        states.append(f.read().split()[0])
+            except OSError:
+                continue
+        kill_stragglers(work)
+        F = Findings(PROP)
+        wit = dict(kind=kind, threads=nt, calls=ncalls, format=fmt, output=out, seed=seed, filter_chain=chain, options=opts, task_syscalls=states[:40])
+        if dsock is not None:
+            stop.append(1)
+            th_.join()
+            dsock.close()
+        if states and all(x in ("202", "61", "247") for x in states):
+            F.violation("C09:stress:threads-stuck", "%d threads making exec calls never finished: every thread of the process sits in a lock wait (format %s, output %s)" % (nt, fmt[:60], out), wit)
+            return F, dict(stress_runs=1, stress_calls=0, tsan_reports=0, concurrent_runs=0)
+        raise Harness("threads driver timed out without being parked in lock waits: %s" % states[:20])
     del keep
     if dsock is not None:
         stop.append(1)
@@ -368,6 +397,10 @@ def main():
         idx += 1
     sj.append((bld, "plain", 16, 1000, FMT, "file", rng.randrange(1, 10**6), root, idx, ("exclude_spawns_of:%s,listedanc" % progs, "log"), dict(ancestor="otheranc")))
     idx += 1
+    # data sources on their own error paths under threads (a result that does not fit, an unknown argument, an unset variable)
+    for i in range(2 if tr == "quick" else 20):
+        sj.append((bld, "plain", rng.choice([4, 16]), 300, "%{datetime:%c | %c | %c | %c | %c | %c}|%{cgroup:nosuch}|%{env:UNSETVAR}|%{cmdline}", "file", rng.randrange(1, 10**6), root, idx, None, dict(timeout=180)))
+        idx += 1
     # (c) non-thread-safe build, single-threaded use
     nbld = vbuild.build("plain-nts")
     for f, st in pmap(stress_run, sj, 8):
